@@ -145,9 +145,25 @@ def _sym_getattr(self, k):
         return AtProxy(self)
     if k in ('ndim', 'size', 'T', 'dtype'):
         return Sym('.' + k, self)
+    if k in _SYM_METHOD_AS_FUNCTION:
+        # x.any() == jnp.any(x) etc.: one canonical form for both spellings
+        fn = globals()[_SYM_METHOD_AS_FUNCTION[k]]
+        return lambda *a, **kw: fn(self, *a, **kw)
+    if k == 'ravel':
+        return lambda *a, **kw: term('.flatten', self)
+    if k == 'reshape':
+        def _reshape(*a, **kw):
+            shp = a[0] if len(a) == 1 else a
+            if shp in (-1, (-1,), [-1]) and not kw:
+                return term('.flatten', self)
+            return term('.reshape', self, *a, **kw)
+        return _reshape
     if k in _SYM_METHODS:
         return lambda *a, **kw: term('.' + k, self, *a, **kw)
     raise AttributeError(k)
+
+
+_SYM_METHOD_AS_FUNCTION = {'any': '_jnp_any', 'all': '_jnp_all', 'sum': '_jnp_sum_model'}
 
 
 Sym.__getattr__ = _sym_getattr
